@@ -51,3 +51,30 @@ Lemma time_witness :
   trun ttoy true ([], []) w_time <> trun_uncached ttoy true ([], []) w_time
   /\ trun ttoy false ([], []) w_time = trun_uncached ttoy false ([], []) w_time.
 Proof. split; [vm_compute; discriminate|vm_compute; reflexivity]. Qed.
+
+Lemma differs_neq : forall q ops, differs q ops = true ->
+  fst (run toy q empty_world ops) <> fst (run_uncached toy q empty_world ops).
+Proof.
+  intros q ops H E. unfold differs in H. rewrite E in H.
+  assert (R : forall l, forallb2_obs l l = true).
+  { induction l as [|a l IH]; simpl; auto. rewrite IH, andb_true_r.
+    destruct a as [[[d w] i]|]; simpl; auto. unfold arr_eqb. simpl.
+    assert (Z1 : forall z, zlist_eqb z z = true) by (induction z; simpl; auto; rewrite Z.eqb_refl; auto).
+    rewrite !Z1, Z.eqb_refl. reflexivity. }
+  rewrite R in H. discriminate.
+Qed.
+
+Lemma shape_refuted : exists pf ops, fst (run pf qs empty_world ops) <> fst (run_uncached pf qs empty_world ops).
+Proof. exists toy, w_shape. apply differs_neq. exact shape_witness. Qed.
+Lemma alias_refuted : exists pf ops, fst (run pf qa empty_world ops) <> fst (run_uncached pf qa empty_world ops).
+Proof. exists toy, w_alias. apply differs_neq. exact alias_witness. Qed.
+Lemma view_refuted : exists pf ops, fst (run pf qv empty_world ops) <> fst (run_uncached pf qv empty_world ops).
+Proof. exists toy, w_view. apply differs_neq. exact view_witness. Qed.
+Lemma hand_refuted : exists pf ops, fst (run pf qh empty_world ops) <> fst (run_uncached pf qh empty_world ops).
+Proof. exists toy, w_hand. apply differs_neq. exact hand_witness. Qed.
+Lemma ro_refuted : exists pf ops, existsb oro (objs (snd (run pf qr empty_world ops))) = true
+                                  /\ In (Some (([], []), -1)) (fst (run pf qr empty_world ops)).
+Proof. exists toy, w_ro. split; [vm_compute; reflexivity|]. vm_compute. right. right. left. reflexivity. Qed.
+Lemma time_refuted : exists tf ops, trun tf true ([], []) ops <> trun_uncached tf true ([], []) ops
+                                    /\ trun tf false ([], []) ops = trun_uncached tf false ([], []) ops.
+Proof. exists ttoy, w_time. exact time_witness. Qed.
